@@ -7,6 +7,7 @@ for d in sorted(glob.glob(os.path.join(root, 'C*'))):
     meta = json.load(open(os.path.join(d, 'meta.json')))
     r1 = json.load(open(os.path.join(d, 'result.json'))) if os.path.exists(os.path.join(d, 'result.json')) else None
     r2 = json.load(open(os.path.join(d, 'result2.json'))) if os.path.exists(os.path.join(d, 'result2.json')) else None
+    r3 = json.load(open(os.path.join(d, 'result3.json'))) if os.path.exists(os.path.join(d, 'result3.json')) else None
     def caught(r): return sorted(p for p, v in (r or {}).get('checks', {}).items() if v['rc'] == 1)
     def line(r):
         for p, v in (r or {}).get('checks', {}).items():
@@ -20,6 +21,7 @@ for d in sorted(glob.glob(os.path.join(root, 'C*'))):
         'ran': 'tools/seeded.py <dir> (scratch worktree of /repo, git apply patch.diff, tools/baseline.py, demo.py on both trees, ./check <property> --tier quick with XYZ_REPO=<worktree>)',
         'first_pass_caught_by': caught(r1) if r1 else None,
         'after_strengthening_caught_by': caught(r2) if r2 else None,
+        'regression_run_with_final_checks_caught_by': caught(r3) if r3 else None,
         'report': line(r2) or line(r1)}
     json.dump(meta, open(os.path.join(d, 'meta.json'), 'w'), indent=1)
     rows.append((os.path.basename(d), meta.get('property'), meta.get('summary', '')[:110], meta.get('needs', '')[:110],
